@@ -49,6 +49,7 @@ from intervaltree import IntervalTree
 import gtirb_rewriting._auxdata as _auxdata
 import gtirb_rewriting._auxdata_offsetmap as _auxdata_offsetmap
 
+from . import _verif_hooks
 from ._modify import (
     ModifyCache,
     SymbolDeletionOptions,
@@ -662,6 +663,14 @@ class RewritingContext:
                     # earlier modifications left pending in the reference
                     # cache have to be made direct before assembling.
                     modify_cache.reference_cache.apply()
+                    if _verif_hooks.ENABLED:
+                        _verif_hooks.fire(
+                            "before_assemble",
+                            modify_cache=modify_cache,
+                            patch=modification.patch,
+                            block=actual_block,
+                            offset=actual_offset,
+                        )
                     assembler_result = self._invoke_patch(
                         modification.patch,
                         actual_block,
@@ -692,6 +701,10 @@ class RewritingContext:
                 total_insert_len += (
                     insert_len - modification.scope._replacement_length()
                 )
+                if _verif_hooks.ENABLED:
+                    _verif_hooks.fire(
+                        "after_modification", modify_cache=modify_cache
+                    )
             elif isinstance(modification, _Deletion):
                 actual_block = delete(
                     modify_cache,
@@ -701,6 +714,10 @@ class RewritingContext:
                     modification.retarget_to_proxy,
                 )
                 total_insert_len -= modification.scope._replacement_length()
+                if _verif_hooks.ENABLED:
+                    _verif_hooks.fire(
+                        "after_modification", modify_cache=modify_cache
+                    )
 
     def _insert_function_stub(
         self,
